@@ -54,6 +54,10 @@ def ledgerOK (status : StatusText) (final : Content) (credits : List (List (Nat 
        | none => false)
   | _ => false
 
+/-- A restart from the exported genesis carries the bridge state: every prophecy (status, final claim, both claim
+    maps) and the rest of the oracle / ethbridge state (given as its canonical dump) are the same before and after. -/
+def restartCarries (pb pa : List Prophecy) (restB restA : String) : Bool := pb == pa && restB == restA
+
 /-- after a lock credit of `c ++ sym`, `Lock` of that token is refused and `Burn` passes the peggy-token guard -/
 def lockThenOnlyBurnable (peggy : List String) (denom : String) : Bool := peggy.contains denom
 
